@@ -99,6 +99,11 @@ def check(P, rep):
         g = P.graph(CN, en)
         bumps = [e for e in state_effects(g) if e.kind == 'sw' and key_variant(e.key)[0] == 'Epoch' and checked('Add', e.val) is not None]
         regs = [e for e in state_effects(g) if e.kind == 'sw' and key_variant(e.key)[0] == 'EpochBySignersHash']
+        # ... and every bump counts from the CURRENT value: the Epoch read it adds 1 to is not separated from the write by another Epoch
+        # write (a value cached before a loop of installations would install every set under the same epoch)
+        stale = [x for x in stale_reads(g, 'Epoch')]
+        rep.check(not stale, 'C08.R4', '%s:epoch-read-fresh' % en, 'the epoch bump adds 1 to an Epoch read that no other Epoch write separates from it '
+                  '(read once per installation)', esite(g, stale[0][0]) if stale else entry_id(g))
         for b in bumps:
             same_epoch = [r for r in regs if same(core(r.val), core(b.val))]
             ok, _ = mf(g, [b.node], [r.node for r in same_epoch])
